@@ -599,6 +599,12 @@ func main() {
 			for _, u := range p.units {
 				if bad[u.Key] && !u.Dropped {
 					u.Dropped = true
+					u.Output = ""
+					for _, l := range strings.Split(err.Error(), "\n") {
+						if strings.Contains(l, "gen/"+u.Key+"/") && len(u.Output) < 1500 {
+							u.Output += strings.TrimSpace(l) + "\n"
+						}
+					}
 					st.UnitsNotCompiled++
 					if len(st.NotCompiledNote) < 4 {
 						for _, l := range strings.Split(err.Error(), "\n") {
@@ -742,9 +748,11 @@ func main() {
 		}
 		imports := "From Verif Require Import Base.Bytes Idl.Ast Idl.Consts Corr.C06.\n" +
 			"From Coq Require Import List NArith ZArith String.\nImport ListNotations.\nOpen Scope string_scope.\n" +
-			"Definition P : program := " + program.Coq() + ".\n" +
-			coqfmt.FastPreamble +
-			"Definition mismatches := mismatches_for P."
+			"Definition P : program := " + program.Coq() + ".\n"
+		if p.Key != "rejects" {
+			imports += coqfmt.FastPreamble
+		}
+		imports += "Definition mismatches := mismatches_for P."
 		w := casefile.New(dir, imports, perShard)
 		writers[p.Key] = w
 		return w
@@ -785,6 +793,7 @@ func main() {
 		return v
 	}
 
+	rejects := &prog{Key: "rejects", front: &NamesOut{Program: idlast.Program{}}}
 	// outcome cases + statistics per program
 	for _, p := range progs {
 		u0 := p.units["o0"]
@@ -836,7 +845,20 @@ func main() {
 		if u0 != nil && !accepted {
 			desc["thriftgo_output"] = lastLine(u0.Output)
 		}
+		if p.Reject && !accepted {
+			// small programs meant to be refused: one shard for all of them, the program travels in the case
+			desc["corpus_key"] = p.Key
+			addCase(rejects, nil, "(KProg "+p.front.Program.Coq()+" "+coqfmt.Bool(accepted)+")", desc, true, p.Key+"|outcome")
+			continue
+		}
 		addCase(p, p.front.Program, "(KOutcome "+coqfmt.Bool(accepted)+")", desc, true, p.Key+"|outcome")
+		for _, o := range sets {
+			if u := p.units[o.Key]; u != nil && u.Accepted && u.Dropped {
+				d := map[string]interface{}{"kind": "compiled", "ok": false, "unit": u.Key, "options": u.Options, "main": p.Main,
+					"files": p.Files, "compiler": u.Output}
+				addCase(p, p.front.Program, "(KCompiled false)", d, true, u.Key+"|compiled")
+			}
+		}
 	}
 
 	for i, pd := range pends {
